@@ -309,7 +309,7 @@ def check_certificate(pep, tau_dual, wrapper, fails, lmi_symmetric=True):
                     g, f, cc = expr_coeffs(obj[i, j])
                     G, F, c = G + Z[i, j] * g, F + Z[i, j] * f, c + Z[i, j] * cc
     rem = max(np.max(np.abs(G), initial=0), np.max(np.abs(F), initial=0))
-    if rem > 50 * t:
+    if rem > 5 * t:              # 1e-4 (1 + |tau|): the solver closes the identity to ~1e-8; observed on the unchanged tree <= 4e-8 over all templates
         fails.append(('C01', 'identity' if lmi_symmetric else 'identity.nonsymmetric_lmi',
                       'objective - tau - combination has a non-constant coefficient %.3g (should vanish)' % rem))
     if abs(c - tau_dual) > 50 * t:
